@@ -441,6 +441,16 @@ class Workflow(metaclass=WorkflowMeta):
         force: bool = False,
     ) -> bool:
         if self._disable_validation and not force:
+            # @catch_error routing is runtime behaviour, not graph validation:
+            # keep the handler tables populated when validation is skipped.
+            if self._validated_version != self.__class__._step_functions_version:
+                from .representation.validate import _collect_catch_error_handlers
+
+                (
+                    self._catch_error_handlers,
+                    self._handler_for_step,
+                ) = _collect_catch_error_handlers(self._step_configs())
+                self._validated_version = self.__class__._step_functions_version
             return False
         stale = self._validated_version != self.__class__._step_functions_version
         if not force and not stale and self._validation_result is not None:
